@@ -71,7 +71,7 @@ theorem C36_commit_ts_exact (d : Db) (id mts cts : Nat) (t : TxnM) (hm : d.opts.
     rw [(commit_goes mts hf hg).2.1, ← hcts] at hx
     rcases mem_foldl_memPut hx with hx | hx
     · right
-      obtain ⟨e, he, rfl⟩ := List.mem_map.mp hx
+      obtain ⟨e, he, rfl⟩ := mem_commitEntries.mp hx
       have := C06_finEnt_fields d (keepTogetherOf t) cts e
       rw [show (if e.ver = 0 then cts else e.ver) = (if e.ver = 0 then mts else e.ver) by rw [hc]] at this
       exact ⟨e, he, this.1, this.2.1, this.2.2.1, this.2.2.2.1, this.2.2.2.2.1⟩
